@@ -1,6 +1,6 @@
 """C05 — try_join: Ok iff all Ok (positional); the first observed error short-circuits."""
 from .. import families, scan
-from . import joinlike, flow, common, c02
+from . import joinlike, flow, common, c02, c03
 
 PROPERTY = "C05"
 LEVEL = "other"
@@ -23,9 +23,10 @@ RULES = {
     "C05.POS": "child's Ok payload is written exactly once, to the child's own slot; Ok result is the positional slot container",
     "C05.CNT": "counter discipline and guard of the Ok return (as C04.CNT)",
     "C05.ZERO": "zero-length world (array, Vec) returns Ready(Ok) without polling; try_join of () is straight-line Ready(Ok)",
+    "C05.ONCE": "premise: a child is polled only while Pending and marked in the poll in which it resolves",
     "C05.ERR": "Ready(Err) edge => same-call return of Ready(Err(that child's error)), consumed := true, no further child poll",
     "C05.OK": "every Ready(Err(..)) return carries the Err payload of a child polled in this call",
-    "C05.DISCARD": "the error path takes no output slot and returns nothing but the error",
+    "C05.DISCARD": "the error path takes no output slot and returns nothing but the error; the destructor drops every Ready slot and every Pending child on every path (values already produced are dropped, not leaked)",
 }
 
 
@@ -41,6 +42,10 @@ def run(ctx):
             joinlike.rule_result(ctx, M, u, "C05.POS")
             joinlike.rule_cnt(ctx, M, u, "C05.CNT")
             rule_err(ctx, M, u)
+            with ctx.renamed({"C03.GUARD": "C05.ONCE", "C03.MARK": "C05.ONCE", "C02.DROP": "C05.DISCARD"}):
+                c03.rule_guard(ctx, u)
+                c03.rule_mark(ctx, u)
+                c02.rule_drop(ctx, M, u)
             flow.rule_integrity(ctx, u.bi, "C05.POS", u.where, ("Ready(Ok)",), "the Ok output")
             flow.rule_integrity(ctx, u.bi, "C05.OK", u.where, ("Ready(Err)",), "the returned error")
             if u.container in ("array", "vec"):
